@@ -215,6 +215,9 @@ func (s *V2Session) buildAndSend(ctx context.Context, c ipmi.Command) error {
 			return fmt.Errorf("received packet for session %#x, ours is %#x",
 				s.v2SessionLayer.ID, s.LocalID)
 		}
+		if err := validateResponseOperation(&s.messageLayer, c.Operation()); err != nil {
+			return err
+		}
 		code := s.messageLayer.CompletionCode
 		// must increment here, otherwise we'll miss temporary codes at the
 		// higher levels
